@@ -567,6 +567,25 @@ func reflectModels() map[string]modelFn {
 		}
 		return RV{}
 	})
+	v("Method", func(ex *Exec, rv RV, a []Val) Val {
+		if rv.T == nil {
+			ex.rpanic("reflect: call of reflect.Value.Method on zero Value")
+		}
+		if rv.kind() == kInterface {
+			unsupported("Value.Method on an interface-kinded Value")
+		}
+		i := ex.concInt(a[0], "Value.Method index")
+		sels := ex.exportedMethods(rv.T)
+		if i < 0 || i >= len(sels) {
+			ex.rpanic("reflect: Method index out of range")
+		}
+		sel := sels[i]
+		fn := ex.w.prog.MethodValue(sel)
+		if fn == nil {
+			unsupported("abstract method %s", sel.Obj().Name())
+		}
+		return RV{T: sel.Type().(*types.Signature), V: Closure{Fn: fn, Recv: rv.val(), HasR: true}, RO: rv.RO}
+	})
 	v("NumMethod", func(ex *Exec, rv RV, a []Val) Val {
 		if rv.T == nil {
 			ex.rpanic("reflect: call of reflect.Value.NumMethod on zero Value")
@@ -793,6 +812,41 @@ func (ex *Exec) structField(f *types.Var, idx []int) Val {
 			out[i] = newSlice(vals)
 		case "Anonymous":
 			out[i] = Bool{C: f.Embedded()}
+		}
+	}
+	return out
+}
+
+// exportedMethods: the method table of t as reflect numbers it (exported methods, sorted by name).
+func (ex *Exec) exportedMethods(t types.Type) []*types.Selection {
+	ms := ex.w.prog.MethodSets.MethodSet(t)
+	var out []*types.Selection
+	for i := 0; i < ms.Len(); i++ {
+		if ms.At(i).Obj().Exported() {
+			out = append(out, ms.At(i))
+		}
+	}
+	return out
+}
+
+// methodStruct builds a reflect.Method value (Name, Type, Index; Func is left zero).
+func (ex *Exec) methodStruct(sel *types.Selection, idx int) Val {
+	rp := ex.w.prog.ImportedPackage("reflect")
+	st := rp.Type("Method").Type().Underlying().(*types.Struct)
+	out := make(Struct, st.NumFields())
+	for i := 0; i < st.NumFields(); i++ {
+		fl := st.Field(i)
+		out[i] = ex.zero(fl.Type())
+		if sel == nil {
+			continue
+		}
+		switch fl.Name() {
+		case "Name":
+			out[i] = cstr(sel.Obj().Name())
+		case "Type":
+			out[i] = ex.rtypeVal(sel.Type())
+		case "Index":
+			out[i] = goInt(idx)
 		}
 	}
 	return out
@@ -1120,6 +1174,30 @@ func (ex *Exec) rtypeMethod(rt RT, name string, args []Val) Val {
 			ex.rpanic("reflect: Field index out of bounds")
 		}
 		return ex.structField(u.Field(i), []int{i})
+	case "Method":
+		if k == kInterface {
+			unsupported("Type.Method of an interface type")
+		}
+		i := ex.concInt(args[0], "Type.Method index")
+		sels := ex.exportedMethods(t)
+		if i < 0 || i >= len(sels) {
+			ex.rpanic("reflect: Method index out of range")
+		}
+		return ex.methodStruct(sels[i], i)
+	case "MethodByName":
+		if k == kInterface {
+			unsupported("Type.MethodByName of an interface type")
+		}
+		name, okn := args[0].(Str).conc()
+		if !okn {
+			unsupported("Type.MethodByName with a symbolic name")
+		}
+		for i, sel := range ex.exportedMethods(t) {
+			if sel.Obj().Name() == name {
+				return Tuple{ex.methodStruct(sel, i), Bool{C: true}}
+			}
+		}
+		return Tuple{ex.methodStruct(nil, 0), Bool{C: false}}
 	case "NumMethod":
 		ms := ex.w.prog.MethodSets.MethodSet(t)
 		n := 0
